@@ -330,6 +330,12 @@ package runtime
 //@ ensures [C16:writeropts] calls(NWR) <= 1 && (calls(NWR) == 1 ==> calls(AW) == 1 && arg(AW,0,1) == ret(NWR,0,0))
 //@ watch INDC = call reflect.Indirect
 //@ ensures [C16:recordsdest] calls(PC) == 1 && calls(INDC) == 1 && ret(PC,0,0) == nil ==> calls(VSET) == 1
+//@ watch SBY = call (reflect.Value).SetBytes
+//@ watch SST = call (reflect.Value).SetString
+//@ watch BBY = call (*bytes.Buffer).Bytes
+//@ watch BST = call (*bytes.Buffer).String
+// a *[]byte or *string destination receives what was buffered (it is not left untouched)
+//@ ensures [C16:bufferedstored] calls(BC) == 1 && ret(BC,0,0) == nil && calls(RM) == 0 && calls(UB) == 0 ==> result == nil && calls(SBY) + calls(SST) == 1 && (calls(SBY) == 1 ==> calls(BBY) == 1 && arg(SBY,0,1) == ret(BBY,0,0)) && (calls(SST) == 1 ==> calls(BST) == 1 && arg(SST,0,1) == ret(BST,0,0))
 //@ watch MS = call reflect.MakeSlice
 // the destination table is replaced by a new table of exactly as many rows as records were piped (nothing it held before survives)
 //@ ensures [C16:recordsexact] calls(VSET) == 1 ==> calls(MS) == 1 && arg(VSET,0,1) == ret(MS,0,0) && arg(RCP,0,0) == ret(MS,0,0) && arg(MS,0,1) == arg(MS,0,2) && arg(MS,0,1) == after(PC, 3, len(csvWriter.records))
